@@ -200,5 +200,5 @@ class LogicalObservableOperation(SingleQubitOperation, ICircuitOperation):
                 targets=[stim.target_rec(main_target)],
                 gate_args=[arg_index],
             )
-        return stim.CircuitInstruction(name=instruction_name, targets=[])
+        return stim.CircuitInstruction(name=instruction_name, targets=[], gate_args=[arg_index])
     # endregion
